@@ -70,10 +70,10 @@ type BOp struct {
 	Path []string `json:"path,omitempty"`
 	// Base: (glv getleaf query) invoke the method on the sub-tree node Get(Path[:Base]) with Path[Base:];
 	// (walk walksorted) a non-empty Path walks the sub-tree node Get(Path)
-	Base int `json:"base,omitempty"`
-	Nil  bool     `json:"nil,omitempty"` // add: store nil
-	Odd  bool     `json:"odd,omitempty"` // add, hupd: parity of the (unique) value written; conditional deletes remove even values
-	For  int      `json:"for,omitempty"` // setup getleaf: the racer that starts with this handle
+	Base int  `json:"base,omitempty"`
+	Nil  bool `json:"nil,omitempty"` // add: store nil
+	Odd  bool `json:"odd,omitempty"` // add, hupd: parity of the (unique) value written; conditional deletes remove even values
+	For  int  `json:"for,omitempty"` // setup getleaf: the racer that starts with this handle
 	// query, walk, walksorted: the visitor yields the processor that many times per
 	// reported leaf (widens the visit; a scheduling device, it decides no verdict)
 	Yield int `json:"yield,omitempty"`
@@ -245,6 +245,9 @@ func burstHOp(g int, o BOp, unique int) HOp {
 		x.Sorted = true
 	}
 	if b := min(max(o.Base, 0), len(o.Path)); b > 0 && (x.Kind == "glv" || x.Kind == "getleaf" || x.Kind == "query") && x.Via == "" {
+		for b > 0 && hasGlob(o.Path[:b]) {
+			b-- // Get takes no globs
+		}
 		x.Base = b
 	}
 	if x.Kind == "walk" && x.Via == "" && o.Base <= 0 {
@@ -367,6 +370,7 @@ func burstLabels(h *History, n int, into map[string]bool) (nontrivial bool) {
 	}
 	_, _, rd := readerDeleteAtomicity(h)
 	rd.labels(into)
+	accessLabels(h, into)
 	ops := h.Ops
 	// WalkSorted on a node that is empty (the root of an empty tree, a leaf holding
 	// nil) while an Add goes through that node
@@ -625,13 +629,27 @@ func genBurst(t *rapid.T) *BurstScenario {
 	handles := !nilOK // no handle is taken in a scenario that may store nil (a nil leaf can turn into a branch)
 	genOp := func(t *rapid.T, setup bool) BOp {
 		kinds := []string{"add", "add", "add", "add", "add", "add", "add", "add", "glv", "glv", "del", "del", "delcond", "walkdel", "query", "walk", "walksorted"}
+		// the accessor dimension (c10_access_test.go): the remaining exported methods, on the root, on the
+		// node a fresh Get returns and on the node retained from the racer's last lookup
+		kinds = append(kinds, "children", "children", "isbranch", "tvalue", "string", "reset", "sub")
 		if handles {
-			kinds = append(kinds, "getleaf", "hupd", "hval")
+			kinds = append(kinds, "getleaf", "hupd", "hval", "held", "held")
 		}
 		if setup {
 			kinds = []string{"add", "add", "add", "del", "delcond"}
 		}
 		o := BOp{Kind: rapid.SampledFrom(kinds).Draw(t, "kind")}
+		switch o.Kind {
+		case "sub":
+			// a read-only method invoked on a sub-tree node: Get(base), then the method
+			o.Kind = rapid.SampledFrom([]string{"glv", "getleaf", "query", "walk", "walksorted"}).Draw(t, "subkind")
+			if !handles && o.Kind == "getleaf" {
+				o.Kind = "glv"
+			}
+			o.Base = rapid.IntRange(1, 3).Draw(t, "base")
+		case "held":
+			o.Kind = rapid.SampledFrom([]string{"nkids", "nkids", "nisbr", "nval", "nstr", "nwalk", "nwalksorted"}).Draw(t, "heldkind")
+		}
 		switch o.Kind {
 		case "add":
 			o.Path = relPath(t)
@@ -639,14 +657,51 @@ func genBurst(t *rapid.T) *BurstScenario {
 			if nilOK && rapid.IntRange(0, 3).Draw(t, "nil") == 0 {
 				o.Nil, o.Odd = true, false
 			}
-		case "glv", "getleaf":
+		case "glv", "getleaf", "children", "isbranch", "tvalue", "string":
 			o.Path = relPath(t)
+		case "walk", "walksorted":
+			if o.Base > 0 {
+				o.Path = relPath(t)
+			}
 		case "hupd":
 			o.Odd = odd(t)
 		case "del", "delcond", "walkdel", "query":
 			o.Path = relPattern(t)
 		}
 		return o
+	}
+	provideNodes := func() {
+		if !handles {
+			return
+		}
+		// a racer that begins with an accessor of a retained node holds a node from before the race: a leaf
+		// the setup added or a branch above it (which a delete of the race may prune)
+		for g, prog := range sc.Racers {
+			needs := false
+			for _, o := range prog {
+				if o.Kind == "getleaf" {
+					break
+				}
+				needs = needs || isHeldKind(burstHOp(g, o, 1).Kind)
+			}
+			if !needs {
+				continue
+			}
+			var adds []int
+			for i, o := range sc.Setup {
+				if o.Kind == "add" && len(o.Path) > 0 {
+					adds = append(adds, i)
+				}
+			}
+			if len(adds) == 0 {
+				continue
+			}
+			// right after the Add: a delete of the setup may prune the node again, the racer keeps it
+			i := adds[rapid.IntRange(0, len(adds)-1).Draw(t, "nodeof")]
+			p := sc.Setup[i].Path
+			get := BOp{Kind: "getleaf", Path: p[:rapid.IntRange(1, len(p)).Draw(t, "nodedepth")], For: g}
+			sc.Setup = append(sc.Setup[:i+1], append([]BOp{get}, sc.Setup[i+1:]...)...)
+		}
 	}
 	// setup: which state the racers find
 	state := rapid.IntRange(0, 12).Draw(t, "state")
@@ -655,6 +710,12 @@ func genBurst(t *rapid.T) *BurstScenario {
 	}
 	if state >= 10 {
 		genBurstPopulated(t, sc, func(t *rapid.T) BOp { return genOp(t, false) })
+		provideNodes()
+		return sc
+	}
+	if state == 9 {
+		genBurstRoot(t, sc, func(t *rapid.T) BOp { return genOp(t, false) })
+		provideNodes()
 		return sc
 	}
 	switch {
@@ -705,6 +766,7 @@ func genBurst(t *rapid.T) *BurstScenario {
 			}
 		}
 	}
+	provideNodes()
 	sc.Aligned = rapid.IntRange(0, 4).Draw(t, "aligned") != 0
 	sc.Reps = rapid.SampledFrom([]int{16, 32, 64}).Draw(t, "reps")
 	return sc
@@ -753,7 +815,7 @@ func genBurstPopulated(t *rapid.T, sc *BurstScenario, anyOp func(*rapid.T) BOp) 
 		return BOp{Kind: rapid.SampledFrom([]string{"del", "del", "del", "delcond", "walkdel"}).Draw(t, "delkind"), Path: pattern(t)}
 	}
 	visitor := func(t *rapid.T) BOp {
-		o := BOp{Kind: rapid.SampledFrom([]string{"walksorted", "walksorted", "walk", "walk", "query", "query"}).Draw(t, "visitkind")}
+		o := BOp{Kind: rapid.SampledFrom([]string{"walksorted", "walksorted", "walk", "walk", "query", "query", "string"}).Draw(t, "visitkind")}
 		if o.Kind == "query" {
 			o.Path = pattern(t)
 		}
@@ -782,6 +844,64 @@ func genBurstPopulated(t *rapid.T, sc *BurstScenario, anyOp func(*rapid.T) BOp) 
 			} else {
 				prog = append(prog, anyOp(t))
 			}
+		}
+		sc.Racers = append(sc.Racers, prog)
+	}
+	sc.Aligned = true
+	sc.Reps = rapid.SampledFrom([]int{16, 32, 64}).Draw(t, "reps")
+}
+
+// genBurstRoot: the transitions of the ROOT. Everything the racers find hangs
+// below ONE top-level element (1-3 leaves, even values), so that a delete of
+// everything, of that element or of the last leaf takes the root back to its
+// zero state; one racer starts with such a delete (and may refill the tree at
+// once), another with an accessor of the root (Children, IsBranch, Value, String,
+// Walk, WalkSorted, Query, the Reset idiom), the others with a further delete (writers
+// queue for the root lock), an Add of a new top-level element, or anything.
+func genBurstRoot(t *rapid.T, sc *BurstScenario, anyOp func(*rapid.T) BOp) {
+	leaves := rapid.SampledFrom([][][]string{{{"a"}}, {{"a", "a"}}, {{"a", "a"}, {"a", "b"}}, {{"a", "a", "a"}}, {{"a", "a", "a"}, {"a", "b"}}, {{"a", "a"}, {"a", "b", "a"}, {"a", "b", "b"}}}).Draw(t, "leaves")
+	for _, p := range leaves {
+		sc.Setup = append(sc.Setup, BOp{Kind: "add", Path: p})
+	}
+	emptier := func(t *rapid.T) BOp {
+		pats := [][]string{{}, {}, {"*"}, {"a"}, {"a"}}
+		if len(leaves) == 1 {
+			pats = append(pats, leaves[0])
+		}
+		return BOp{Kind: rapid.SampledFrom([]string{"del", "del", "del", "delcond", "walkdel"}).Draw(t, "delkind"), Path: rapid.SampledFrom(pats).Draw(t, "all")}
+	}
+	rootAccessor := func(t *rapid.T) BOp {
+		o := BOp{Kind: rapid.SampledFrom([]string{"children", "children", "children", "isbranch", "tvalue", "string", "walk", "walksorted", "query", "reset"}).Draw(t, "rootaccessor")}
+		if o.Kind == "walk" || o.Kind == "walksorted" || o.Kind == "query" {
+			o.Yield = rapid.SampledFrom([]int{0, 0, 1, 2}).Draw(t, "yield")
+		}
+		return o
+	}
+	refill := func(t *rapid.T) BOp {
+		return BOp{Kind: "add", Path: rapid.SampledFrom([][]string{leaves[0], {"b"}, {"a", "c"}, {}}).Draw(t, "refill"), Odd: rapid.Bool().Draw(t, "odd")}
+	}
+	nr := rapid.SampledFrom([]int{2, 2, 3, 3, 4}).Draw(t, "racers")
+	for g := 0; g < nr; g++ {
+		role := g
+		if g >= 2 {
+			role = rapid.IntRange(0, 3).Draw(t, "role")
+		}
+		var prog []BOp
+		switch role {
+		case 0:
+			prog = []BOp{emptier(t)}
+			if rapid.IntRange(0, 2).Draw(t, "refills") == 0 {
+				prog = append(prog, refill(t))
+			}
+		case 1:
+			prog = []BOp{rootAccessor(t)}
+			if rapid.IntRange(0, 2).Draw(t, "again") == 0 {
+				prog = append(prog, rootAccessor(t))
+			}
+		case 2:
+			prog = []BOp{refill(t)}
+		default:
+			prog = []BOp{anyOp(t)}
 		}
 		sc.Racers = append(sc.Racers, prog)
 	}
